@@ -16,6 +16,13 @@ NOTES = {
  "C18-b": "missed at first (3-digit status codes only); caught after header sets gained status codes of 1, 2, 4 and 5 digits and empty/long reasons",
  "C19-b": "first run: `no-failing-input-found` (SimTcp cannot lose bytes already handed to it); after family `socknet` (the same cases over a real loopback connection, judged by what the client receives): concrete replay",
  "C20-b": "missed at first (one connection at a time); caught after family `tls` gained overlapping connections (clients connect first, then act in every order)",
+ "C03-c": "would have been missed (ASCII reasons only): non-ASCII reason phrases were added after reading the agent's summary, before the first run",
+ "C01-c": "header names that are proper prefixes of one another were added after reading the agent's summary, before the first run (until then only the empty name was a prefix of others)",
+ "C06-c": "the harness created a fresh middleware object per slot: re-attaching the same object (same id) was added after reading the agent's summary, before the first run",
+ "C04-c": "missed at first (SimTcp::bytesToWrite() always said 0, so the deferred close never happened); caught after SimTcp reports its unacknowledged bytes",
+ "C10-c": "missed by the C10 check at first (reported by C11 through its proxy mutation stream); caught after C10 also runs proxy-family cases with the upstream still connected at the teardown",
+ "C08-c": "missed at first (one handler object per request); caught after family `fsm` (2-6 requests through ONE FilesystemHandler)",
+ "C09-c": "missed at first (wrong passwords differed by a few bytes); caught after wrong passwords longer by 255/256/257/512/768 bytes were added",
  "C06-b": "caught on the first run, thanks to the refusal styles (silent / own fragment without close) added to model, spec and harness beforehand",
 }
 rows = []
